@@ -1,6 +1,7 @@
 package main
 
 import (
+	"bytes"
 	"encoding/hex"
 	"fmt"
 	"io"
@@ -278,6 +279,9 @@ func (storageSlice) Gen(r *rand.Rand, _ int, tier string) ([]string, []string) {
 		}
 		tags = append(tags, "remove")
 	}
+	if len(pending) > 0 && r.Intn(2) == 0 {
+		ops = append(ops, "noise")
+	}
 	for _, h := range pending {
 		ops = append(ops, fmt.Sprintf("rdh %d %s", h, bufs())) // a reader opened earlier, used after Remove
 	}
@@ -312,6 +316,8 @@ type storageRunner struct {
 	refPos  []int
 	fin     bool
 	removed bool
+	noise    []storage.File
+	noiseN   int
 	snaps    map[int]string // reader handle -> reference content at open time
 	rmCalled bool
 	tainted bool // an op outside the property's quantifier was seen: the reference no longer applies
@@ -337,6 +343,10 @@ func (r *storageRunner) Close() {
 		for _, h := range b.handles {
 			h.Close()
 		}
+	}
+	for _, g := range r.noise {
+		g.Finalize()
+		g.Remove()
 	}
 	os.RemoveAll(r.dir)
 }
@@ -586,6 +596,22 @@ func (r *storageRunner) Step(line string) []string {
 			r.fails = append(r.fails, "disk file missing although Remove was not called")
 		}
 		return []string{"ram:- disk:" + x}
+	}
+	if ws[0] == "noise" {
+		// an unrelated File of the same process is created and written: storage of one file must not be
+		// affected by another one (shared pools / globals)
+		r.noiseN++
+		for _, f := range []storage.Factory{storage.NewFactoryRAM(), storage.NewFactoryDisk(r.dir)} {
+			g, err := f.NewFile(fmt.Sprintf("noise%d.mp4", r.noiseN))
+			if err == nil {
+				for i := 0; i < 3; i++ {
+					w := g.NewPart().Writer()
+					w.Write(bytes.Repeat([]byte{0xEE}, 64+17*i)) //nolint:errcheck
+				}
+				r.noise = append(r.noise, g)
+			}
+		}
+		return []string{"ram:u disk:u"}
 	}
 	if ws[0] == "rm" {
 		r.rmCalled = true
